@@ -19,7 +19,9 @@ Accepted grammar (anything else raises Untranslatable naming line and construct)
   conditions is / is not None, type(x) == / is / != / is not T, isinstance(x, int|str), == != < <= > >=
              (also chained) on integers, == != on strains / moduli / booleans, and / or / not
              (short-circuit), x in / not in {int, ...}, x in / not in VOIGT_TO_STANDARD[.keys()|.values()],
-             STANDARD_TO_VOIGT[.keys()|.values()], a if c else b
+             STANDARD_TO_VOIGT[.keys()|.values()], x in (int, ...), a if c else b, any(...) / all(...) over a
+             generator (lazy, Python's short-circuit order), a list comprehension (eager) or a tuple, on a
+             sequence of known length (tuple / list display, a strain, a modulus key): unrolled into || / &&
   integers   literals, + - * unary -, a << b with b a boolean or a provably non-negative term
              (1 << a << b, 1 << (x + y + z)), int(bool), int(x), booleans used as integers; a property body
              that is an if-chain over total scalar results is folded into one (if c then a else b) term
@@ -410,7 +412,7 @@ class VOpaque(V):           # bound name whose value is outside the grammar: any
 
 
 TYPE_NAMES = ("int", "str", "bool", "tuple", "list", "dict", "set", "float")
-BUILTINS = TYPE_NAMES + ("type", "isinstance", "len", "sorted", "map")
+BUILTINS = TYPE_NAMES + ("type", "isinstance", "len", "sorted", "map", "any", "all")
 MODELLED = ("StrainRepresentation", "ModulusRepresentation")
 INTERFACE = {("StrainRepresentation", "from_voigt"): ("strain_from_voigt", "S"),
              ("StrainRepresentation", "from_standard"): ("strain_from_standard", "S"),
@@ -796,6 +798,11 @@ class Ev:
         if isinstance(e, ast.Call):
             if any(k.arg is None for k in e.keywords):
                 bail(e, "**kwargs")
+            if isinstance(e.func, ast.Name) and e.func.id in ("any", "all") and not e.keywords and len(e.args) == 1 \
+                    and isinstance(e.args[0], (ast.GeneratorExp, ast.ListComp)):
+                f = self.lookup(e.func.id, env, e.func)
+                if isinstance(f, VBuiltin) and f.name == e.func.id:
+                    return self.ev_anyall(f.name == "any", e.args[0], env, e)
             return bind(self.ev(e.func, env), lambda f: bind(self.ev_seq(e.args, env), lambda args: bind(
                 self.ev_seq([k.value for k in e.keywords], env),
                 lambda kv: self.apply(f, args, dict(zip([k.arg for k in e.keywords], kv)), e))))
@@ -995,6 +1002,56 @@ class Ev:
             return bind(self.items_of(v, node), pick)
         bail(node, "subscript")
 
+    def anyall_fold(self, is_any, n, elem, node):
+        """any / all over n elements produced one at a time by elem(idx) (a tree): Python's order, stops at the
+        first deciding element; the result is a bool"""
+        op = "or" if is_any else "and"
+
+        def go(idx):
+            if idx == n:
+                return leaf(VBool(("bc", not is_any)))
+            return bind(elem(idx), lambda v: step(v, idx))
+
+        def step(v, idx):
+            tb = self.truth(v, node)
+            if tb[0] == "bc":
+                return leaf(VBool(("bc", is_any))) if tb[1] == is_any else go(idx + 1)
+            r = go(idx + 1)
+            if r[0] == "leaf":
+                return leaf(VBool(mk_bool(op, [tb, r[1].t])))
+            if is_any:
+                return ("if", tb, leaf(VBool(("bc", True))), r)
+            return ("if", tb, r, leaf(VBool(("bc", False))))
+        return go(0)
+
+    def ev_anyall(self, is_any, comp, env, node):
+        """any(f(x) for x in <sequence of known length>) unrolled; a generator is lazy (elements after the deciding
+        one are not evaluated), a list comprehension evaluates every element first"""
+        if len(comp.generators) != 1:
+            bail(comp, "comprehension")
+        g = comp.generators[0]
+        if g.ifs or g.is_async or not isinstance(g.target, ast.Name):
+            bail(comp, "comprehension")
+        x = g.target.id
+
+        def over(s):
+            if isinstance(s, (VList, VLong)):
+                bail(node, "any / all over a sequence of unknown length")
+
+            def unroll(items):
+                def elem(idx):
+                    return self.ev(comp.elt, dict(env, **{x: items[idx]}))
+                if isinstance(comp, ast.GeneratorExp):
+                    return self.anyall_fold(is_any, len(items), elem, node)
+
+                def eager(idx, acc):
+                    if idx == len(items):
+                        return self.anyall_fold(is_any, len(acc), lambda k: leaf(acc[k]), node)
+                    return bind(elem(idx), lambda v: eager(idx + 1, acc + [v]))
+                return eager(0, [])
+            return bind(self.items_of(s, node), unroll)
+        return bind(self.ev(g.iter, env), over)
+
     def ev_comp(self, e, env):
         """(int(k) for k in s) / [int(k) for k in s] / (k for k in seq)"""
         if len(e.generators) != 1:
@@ -1157,6 +1214,9 @@ class Ev:
             return bind(self.items_of(args[0], node), lambda items: leaf(VTuple(items)))
         if name == "map" and len(args) == 2:
             return self.map_conv(args[0], args[1], node)
+        if name in ("any", "all") and len(args) == 1 and not isinstance(args[0], (VList, VLong)):
+            return bind(self.items_of(args[0], node), lambda items: self.anyall_fold(
+                name == "any", len(items), lambda k: leaf(items[k]), node))
         if name == "attrgetter" and len(args) == 1 and isinstance(args[0], VStrConst) and "." not in args[0].s:
             return leaf(VAttrGetter(args[0].s))
         bail(node, "call of builtin %s" % name)
